@@ -181,12 +181,12 @@ class RecordManager:
                 " In the future this will fail"
             )
 
+        now = current_time_millis()
         if question is not None:
             # Expired records the periodic cleanup has not removed yet are
             # not replayed to the listener below.  Remove them now, as the
             # cleanup would, or hearing one of them again would only refresh
             # the entry and never be reported as new.
-            now = current_time_millis()
             expired = self.cache.async_expire(now)
             if expired:
                 self.async_updates(now, [RecordUpdate(record, record) for record in expired])
@@ -198,16 +198,15 @@ class RecordManager:
             return
 
         questions = [question] if isinstance(question, DNSQuestion) else question
-        self._async_update_matching_records(listener, questions)
+        self._async_update_matching_records(listener, questions, now)
 
     def _async_update_matching_records(
-        self, listener: RecordUpdateListener, questions: List[DNSQuestion]
+        self, listener: RecordUpdateListener, questions: List[DNSQuestion], now: _float
     ) -> None:
         """Calls back any existing entries in the cache that answer the question.
 
         This function must be run from the event loop.
         """
-        now = current_time_millis()
         records: List[RecordUpdate] = [
             RecordUpdate(record, None)
             for question in questions
